@@ -181,11 +181,19 @@ def cfg_C09(tier, rng):
     rich = gc.family_f3(rng, 10 if tier == QUICK else 80, nmin=3, nmax=5, tmin=3, tmax=5, nev=2,
                         max_oracle=1, contracts=True)
     tw = dict(rel='ignore', kw=dict(ignore_contract=True))
+    timed = gc.family_f3(rng, 10 if tier == QUICK else 80, nmin=3, nmax=5, tmin=4, tmax=6, nev=2,
+                         max_oracle=1, contracts=True, time_guards=True)
     return [dict(name='transparent', charts=charts + rich,
                  consts=dict(MaxQ=1, MaxLevel=6 if tier == QUICK else 7, Twin='ignore'),
                  variants=[dict(variant='api', twin=tw)],
                  random=dict(count=150 if tier == QUICK else 1500, length=14,
                              family=lambda r, kk: gc.family_f3(r, kk, nmin=5, nmax=8, contracts=True))),
+            dict(name='transparent_timed', charts=timed,
+                 consts=dict(MaxQ=1, MaxClk=3 if tier == QUICK else 4, Advances={1, 2}, MaxLevel=6 if tier == QUICK else 7,
+                             Twin='ignore'),
+                 variants=[dict(variant='api', twin=tw)],
+                 random=dict(count=150 if tier == QUICK else 1500, length=20, advances=(1, 2, 3),
+                             family=lambda r, kk: gc.family_f3(r, kk, nmin=5, nmax=8, contracts=True, time_guards=True))),
             dict(name='ignored', charts=charts[:len(charts) // 2] + rich,
                  consts=dict(MaxQ=1, MaxLevel=5, MaxCFail=3, Opt={'ignore': True, 'metas': True}),
                  variants=[dict(variant='api', ignore_contract=True)],
@@ -197,13 +205,20 @@ def cfg_C10(tier, rng):
     k = 40 if tier == QUICK else 400
     base = thin(_sub(gc.family_f1(4 if tier == QUICK else 5), k, rng), rng, 4)
     rich = gc.family_f3(rng, 8 if tier == QUICK else 60, nmin=3, nmax=5, tmin=3, tmax=5, nev=2, max_oracle=1)
+    for c in base + rich:   # the clock also moves while a step is being processed
+        for t in c['trans']:
+            if rng.random() < 0.4:
+                t['act'] = dict(t['act'], tick=rng.choice([1, 2]))
+        for s_ in range(c['n']):
+            if rng.random() < 0.2:
+                c['entry'][s_] = dict(c['entry'][s_], tick=1)
     return [dict(name='monitor', charts=base + rich,
-                 consts=dict(MaxQ=1, MaxMFail=14 if tier == QUICK else 20, MaxLevel=4 if tier == QUICK else 5),
+                 consts=dict(MaxQ=1, MaxClk=6, MaxMFail=14 if tier == QUICK else 20, MaxLevel=4 if tier == QUICK else 5),
                  variants=[dict(variant='api', monitor=True)],
                  random=dict(count=100 if tier == QUICK else 1000, length=12, pmfail=0.3,
                              family=lambda r, kk: gc.family_f3(r, kk, nmin=5, nmax=8))),
             dict(name='nonintrusive', charts=base[:len(base) // 2] + rich,
-                 consts=dict(MaxQ=1, MaxLevel=5 if tier == QUICK else 6),
+                 consts=dict(MaxQ=1, MaxClk=6, MaxLevel=5 if tier == QUICK else 6),
                  variants=[dict(variant='api', monitor=True, twin=dict(rel='nomon', kw=dict(monitor=False)))],
                  random=dict(count=100 if tier == QUICK else 1000, length=14,
                              family=lambda r, kk: gc.family_f3(r, kk, nmin=5, nmax=8)))]
@@ -227,8 +242,9 @@ def cfg_C07(tier, rng):
                            dict(variant='api_edit', seed=2, twin=dict(rel='variant', kw=dict(variant='yaml'))),
                            dict(variant='api_reversed', twin=dict(rel='variant', kw=dict(variant='api', seed=3)))],
                  random=rd),
-            dict(name='hashseed', charts=charts[:len(charts) // 2],
-                 consts=dict(MaxQ=1, MaxLevel=5 if tier == QUICK else 6),
+            dict(name='hashseed', charts=charts[:len(charts) // 3] + thin(gc.family_hist(rng, 40 if tier == QUICK else 300), rng, 9)
+                 + [c for c in gc.family_f1(4) if 'deep' in c['kind']][:40],
+                 consts=dict(MaxQ=1, MaxLevel=6 if tier == QUICK else 7),
                  variants=[dict(variant='api', pool='unicode')],
                  other_process=[1, 2] if tier == QUICK else [1, 2, 3, 12345, 99],
                  random=rd)]
